@@ -960,6 +960,51 @@ func runC13(args []string) error {
 		}
 	}
 
+	// ---------------------------------------------------------------- C'. replacement types and values: routes to the real object (child processes)
+	rtypes := c13ReplTypes()
+	var shapeCases, routeCases []string
+	for _, t := range rtypes {
+		in := map[string]any{"kind": "replacement-type", "symbol": t.qual(), "type": t.GoName, "shape": t.Type.String()}
+		cid := newID(in)
+		shapeCases = append(shapeCases, fmt.Sprintf("(%d%%N, %s, %s)", cid, coqStr(t.GoName), t.coqFields()))
+		sm.Evaluations++
+		sm.ImplComparisons++
+		sm.count("replacement-type")
+	}
+	rctors := c13ReplCtors(rtypes)
+	rruns, unknownCtors := c13RouteRuns(rctors)
+	for _, u := range unknownCtors {
+		sm.HarnessViolations = append(sm.HarnessViolations, refMismatch{ID: 0, Region: "", Input: "replacement constructor " + u,
+			Impl: "a function of the default table returns a replacement type but the route catalogue has no call expression for it", Ref: "every replacement value a script can obtain is exercised"})
+	}
+	if len(rtypes) == 0 || len(rruns) == 0 {
+		sm.Notes = append(sm.Notes, "no replacement type or constructor found in stdlib.Symbols: the route stream is empty")
+	}
+	rres := make([]c13ChildRes, len(rruns))
+	parallelMap(len(rruns), 0, func(i int) {
+		rres[i] = c13RunChild(scratch, 5000+i, c13Spec{Src: rruns[i].Src, Stdin: c13OptStdin})
+	})
+	for i, x := range rruns {
+		obs := c13ExitOutcome(rres[i])
+		in := map[string]any{"kind": "route", "value": path.Base(x.Ctor.Key) + "." + x.Ctor.Name + "(...)", "route": x.Route.Coq, "method": x.Meth, "script": x.Src}
+		cid := newID(in)
+		coqObs := obs
+		if obs == "Timeout" {
+			coqObs = "Undefined"
+		}
+		routeCases = append(routeCases, fmt.Sprintf("(%d%%N, %s, %s, %s, %s, true)", cid, coqStr(x.Ctor.T.GoName), x.Route.Coq, coqStr(x.Meth), coqObs))
+		sm.Evaluations++
+		sm.ImplComparisons++
+		sm.RefComparisons++
+		sm.count("route")
+		sm.count("route:" + obs)
+		distinct.add("route", x.Ctor.Name, x.Route.Coq, x.Meth)
+		if obs == "HostExit" || obs == "Timeout" {
+			sm.RefMismatches = append(sm.RefMismatches, refMismatch{ID: cid, Region: "", Input: in,
+				Impl: map[string]any{"outcome": obs, "child_exit": rres[i].Exit, "child_stderr": firstLine(rres[i].RealStderr)}, Ref: "the host survives"})
+		}
+	}
+
 	// ---------------------------------------------------------------- D. redirected I/O (child processes)
 	ios := c13IOCatalogue()
 	ires := make([]c13ChildRes, len(ios))
@@ -1172,6 +1217,12 @@ func runC13(args []string) error {
 	if err := chunk("io", "io_case", "io_mis", ioCases, 200); err != nil {
 		return err
 	}
+	if err := chunk("shape", "shape_case", "shape_mis", shapeCases, 200); err != nil {
+		return err
+	}
+	if err := chunk("route", "route_case", "route_mis", routeCases, 400); err != nil {
+		return err
+	}
 	if err := chunk("iso", "iso_case", "iso_mis", isoCases, 300); err != nil {
 		return err
 	}
@@ -1185,6 +1236,7 @@ func runC13(args []string) error {
 	sm.DistinctNontriv = len(distinct)
 	sm.Exhaustive = false
 	sm.Rule = "import matrix: every key of stdlib.Symbols at run time plus unsafe, syscall, os/exec x 5 import forms (exhaustive); exit entry points and redirected I/O functions: the whole catalogue, each in its own child process (exhaustive over the catalogue); " +
+		"replacement types (found by reflection in stdlib.Symbols) x values a script can obtain x routes to the object behind them (own methods, method value/expression, interface assertion, embedding, field selection, reflect Field/FieldByName/scan/Method/Convert) x exit-like methods, each in its own child process; " +
 		"several interpreters in one process: fixed and seeded interleavings of New / Use(stdlib|unrestricted) / script compilations over 2..3 interpreters with their own Options, each in its own child process; " +
 		"environment: seeded sequences of 1..40 operations over 7 keys (empty key, key with '=', a host sentinel), values and ExpandEnv strings with '$' syntax, Options.Env with duplicates / missing '=' / empty entries, 3 import forms of os; " +
 		"distinct = distinct inputs; non-trivial = an environment sequence has >= 3 operation kinds and at least one mutation (every matrix cell and catalogue entry counts)"
